@@ -395,19 +395,48 @@ def parse_info(line):
     return d
 
 
+def is_fill_pre(pre):
+    return len(pre) >= 3 and pre[0] in 'fg' and pre[1] in 'nr' and pre[2] == ':'
+
+
+def fill_extras(pre, np):
+    """[(isrec, fill, elements)] of the variables the harness' define_fill_vars adds for pre = <f|g><n|r>:<spec>"""
+    out = []
+    for tok in [t for t in pre[3:].split(',') if t]:
+        nofill = tok.startswith('x')
+        if nofill:
+            tok = tok[1:]
+        ln = {'1': 1, '2': 2, 'm': np - 1, 'n': np, 'p': np + 1}.get(tok[1:2], 0) if tok[0] in 'fr' else 0
+        out.append((tok[0] == 'r', not nofill, max(ln, 1)))     # scalar and [t]-only record variable: 1 element
+    return out
+
+
 def coq_shared(c, info):
-    """the shared state the harness prepares (harness/c08_trace.c: setup_file / prepare)"""
+    """the shared state the harness prepares (harness/c08_trace.c: setup_file / prepare / prepare_fill)"""
     pre = c.pre
-    mode = {'': 'MColl', 'data': 'MColl', 'indep': 'MIndep', 'indep_put': 'MIndep', 'redef': 'MDefine', 'redef_grow': 'MDefine',
-            'redef_addrec': 'MDefine', 'redef_addfix': 'MDefine', 'new': 'MDefine', 'closed': 'MColl', 'none': 'MDefine', 'empty': 'MDefine'}[pre]
-    isnew = pre in ('new', 'none', 'empty')
-    nvars = {'none': 0, 'empty': 0, 'redef_addrec': 7, 'redef_addfix': 7}.get(pre, 6)
-    nrec = {'none': 0, 'empty': 0, 'redef_addrec': 3}.get(pre, 2)
+    X = 4 * c.np
+    std = [(False, False, X), (True, True, X), (False, False, 1), (False, False, 8), (True, False, X), (False, False, X)]   # vf vr vs vc vr2 vf2
+    extras = []
+    if is_fill_pre(pre):
+        mode = 'MDefine'
+        isnew = pre[1] == 'n'
+        extras = fill_extras(pre, c.np)
+        if pre[0] == 'g':          # ncmpi_set_fill(NC_FILL) after the standard definitions: every variable is in fill mode
+            std = [(r, True, n) for r, f, n in std]
+        newvars = (std if isnew else []) + extras
+        nvars = 6 + len(extras); nrec = 2 + sum(1 for r, f, n in extras if r)
+    else:
+        mode = {'': 'MColl', 'data': 'MColl', 'indep': 'MIndep', 'indep_put': 'MIndep', 'redef': 'MDefine', 'redef_grow': 'MDefine',
+                'redef_addrec': 'MDefine', 'redef_addfix': 'MDefine', 'new': 'MDefine', 'closed': 'MColl', 'none': 'MDefine', 'empty': 'MDefine'}[pre]
+        isnew = pre in ('new', 'none', 'empty')
+        nvars = {'none': 0, 'empty': 0, 'redef_addrec': 7, 'redef_addfix': 7}.get(pre, 6)
+        nrec = {'none': 0, 'empty': 0, 'redef_addrec': 3}.get(pre, 2)
+        newvars = {'new': std, 'redef_addfix': [(False, True, X)], 'redef_addrec': [(True, False, X)]}.get(pre, [])
     if c.api == 'create':
         nvars, nrec = 0, 0
     numrecs = 0 if isnew else 2
     indep_open = pre in ('indep', 'indep_put')
-    fill_new = pre == 'redef_addfix'       # vf3 (fixed-size, fill mode) is new; a new record variable of a file without records has no segment to fill
+    nvl = '[' + '; '.join('mkNv %s %s %d' % (b(r), b(f), n) for r, f, n in newvars) + ']'
     old = info.get('old'); new = info.get('new')
     def lay(i):
         if not i:
@@ -426,12 +455,12 @@ def coq_shared(c, info):
     noclobber = c.api == 'create' and c.cls[0] == 'nc'
     exists = noclobber and pre == 'closed'
     return ('(mkSh %s false %s %d %d %d %s 1 %s %s %s %s %s %s %d %d %d %d %d %d)' %
-            (mode, b(isnew), nvars, nrec, numrecs, b(indep_open), b(fill_new), b(exists), b(noclobber), b(argflag), lay(old), lay(new),
+            (mode, b(isnew), nvars, nrec, numrecs, b(indep_open), nvl, b(exists), b(noclobber), b(argflag), lay(old), lay(new),
              begin_var(old), begin_var(new), begin_rec(old), begin_rec(new), fld(old, 'recsize'), fld(new, 'recsize')))
 
 
 def needs_layout(c):
-    return c.pre in ('redef_grow', 'redef_addrec', 'redef_addfix')
+    return c.pre in ('redef_grow', 'redef_addrec', 'redef_addfix') or (is_fill_pre(c.pre) and c.pre[1] == 'r')
 
 
 # =============================================================================== model runs
@@ -839,6 +868,25 @@ def gen_cases(ctx):
         add('close', ['-'] * np, dup=1)
         add('abort', ['-'] * np, dup=1, pre='new')
         add('enddef', ['-'] * np, pre='redef', aggr=1)
+    # enddef / _enddef / close from define mode with NEW variables in fill mode (fillerup_aggregate): 0, 1, 2, nprocs-1, nprocs,
+    # nprocs+1 elements, fixed-size and record (2 records exist after redef), per-variable fill mode (f) or ncmpi_set_fill (g),
+    # first define mode (n) or after redef (r): a rank whose share of every such variable is empty must still take part
+    specs = ['', 's', 'f1', 'f2', 'fm', 'fn', 'fp', 'r0', 'r1', 'r2', 'rm', 'rn', 'rp', 'xs', 'xf2,xr0', 's,f2', 's,r0', 'xf2,r1', 'f1,xfp',
+             's,f2,fm,fn,fp,r0,r2,rp']
+    qspecs = ['', 's', 'f2', 'fp', 'r0', 'r2', 'xs', 's,r0', 's,f2,fm,fn,fp,r0,r2,rp']
+    for np in (2, 3, 4):
+        for kind in ('fn', 'fr', 'gn', 'gr'):
+            for sp in (specs if thorough else qspecs):
+                pre = '%s:%s' % (kind, sp)
+                add('enddef', ['-'] * np, pre=pre)
+                if thorough or sp in ('s', 'r0', 's,r0'):
+                    add('close', ['-'] * np, pre=pre)
+                    add('_enddef', ['ok'] * np, pre=pre)
+                if thorough or (sp == 's' and np == 3):
+                    for safe, hcoll in ((1, 0), (0, 1), (1, 1)):
+                        add('enddef', ['-'] * np, pre=pre, safe=safe, hcoll=hcoll)
+                        if thorough:
+                            add('close', ['-'] * np, pre=pre, safe=safe, hcoll=hcoll)
     # deduplicate, name
     seen = set(); out = []
     for c in cases:
